@@ -174,7 +174,9 @@ pub fn run(ctx: &mut Ctx) {
     {
         use trusttunnel::settings::*;
         use trusttunnel::verif::{vlive, vservice};
-        let kinds: [(&str, bool); 9] = [
+        let kinds: [(&str, bool); 10] = [
+            // the listeners themselves (`Core::listen`, without a metrics listener that would hold a guard of its own)
+            ("listeners", false),
             ("tunnel", false),
             ("tunnel", true),
             ("ping", false),
@@ -188,8 +190,9 @@ pub fn run(ctx: &mut Ctx) {
         for (kind, h2) in kinds {
             let shutdown = Shutdown::new();
             let maddr = std::net::TcpListener::bind("127.0.0.1:0").map(|l| l.local_addr().unwrap()).ok();
+            let listen_port = crate::c02h3::free_port();
             let mut b = Settings::builder()
-                .listen_address(("127.0.0.1", 1))
+                .listen_address(("127.0.0.1", listen_port))
                 .unwrap()
                 .listen_protocols(ListenProtocolSettings {
                     http1: Some(Http1Settings::builder().build()),
@@ -198,15 +201,15 @@ pub fn run(ctx: &mut Ctx) {
                 })
                 .speedtest_enable(true)
                 .reverse_proxy(ReverseProxySettings::builder().server_address("127.0.0.1:9").unwrap().path_mask("/rp".to_string()).build().unwrap());
-            if let Some(a) = maddr {
+            if let (Some(a), true) = (maddr, kind != "listeners") {
                 b = b.metrics(MetricsSettings::builder().listen_address(a).unwrap().request_timeout(std::time::Duration::from_secs(3)).build().unwrap());
             }
             let hosts = TlsHostsSettings::builder()
                 .main_hosts(vec![TlsHostInfo { hostname: "localhost".into(), cert_chain_path: FIXTURE_PEM.into(), private_key_path: FIXTURE_PEM.into(), allowed_sni: vec![] }])
                 .build()
                 .unwrap();
-            let core = trusttunnel::core::Core::new(b.build().unwrap(), None, hosts, shutdown.clone()).unwrap();
-            let label = format!("{}{}", kind, if kind == "metrics" || kind == "none" { "" } else if h2 { "/h2" } else { "/h1" });
+            let core = std::sync::Arc::new(trusttunnel::core::Core::new(b.build().unwrap(), None, hosts, shutdown.clone()).unwrap());
+            let label = format!("{}{}", kind, if kind == "metrics" || kind == "none" || kind == "listeners" { "" } else if h2 { "/h2" } else { "/h1" });
             let rt = tokio::runtime::Builder::new_current_thread().enable_all().start_paused(true).build().unwrap();
             let verdict: Result<(), String> = rt.block_on(async {
                 use std::time::Duration;
@@ -224,6 +227,12 @@ pub fn run(ctx: &mut Ctx) {
                         None
                     }
                     "metrics" => Some(vservice::spawn_metrics(&core)),
+                    "listeners" => {
+                        let c2 = core.clone();
+                        Some(tokio::spawn(async move {
+                            let _ = c2.listen().await;
+                        }))
+                    }
                     "none" => None,
                     k => match vservice::spawn(&core, k, h2) {
                         Some(s) => {
@@ -271,6 +280,9 @@ pub fn run(ctx: &mut Ctx) {
                 drop((keep_h1, keep_h2, keep_svc));
                 if done.is_err() {
                     return Err("completion() still pending 10 s after the participant ended".to_string());
+                }
+                if kind == "listeners" && std::net::TcpStream::connect_timeout(&([127, 0, 0, 1], listen_port).into(), Duration::from_millis(300)).is_ok() {
+                    return Err("completion() returned while the endpoint was still accepting TCP connections".to_string());
                 }
                 Ok(())
             });
